@@ -447,15 +447,7 @@ def run(ctx):
     for names, env, root, docs in cases:
         lines.append(json.dumps({"schema": print_node(env, root), "types": [[nm, print_node(env, env[nm])] for nm in names],
                                  "ops": [["check"]] + [["validate", J.print_doc(d, rng)] for d in docs]}))
-    try:
-        outs = vc.impl_parallel(["schema"], lines, shards=16, timeout=600)
-    except RuntimeError:
-        outs = []
-        for l in lines:
-            try:
-                outs.append(vc.impl(["schema"], [l], timeout=30)[0])
-            except RuntimeError:
-                outs.append(json.dumps(["CRASH"]))
+    outs = vc.impl_isolating(["schema"], lines, 1)
     nchk = 0
     for (names, env, root, docs), l, o in zip(cases, lines, outs):
         r = json.loads(o)
